@@ -19,3 +19,9 @@ package scorch
 // verifIntroduced is a no-op unless built with the `verif` tag.
 func verifIntroduced(s *Scorch, kind string, pre, post *IndexSnapshot, batchIDs []string, newSegmentID uint64) {
 }
+
+// verifDurable is a no-op unless built with the `verif` tag.
+func verifDurable(s *Scorch, kind string, epoch uint64, names []string) {}
+
+// verifCrashPoint is a no-op unless built with the `verif` tag.
+func verifCrashPoint(s *Scorch, name string) {}
